@@ -282,6 +282,52 @@ func HealthySessions(rng *rand.Rand, thorough bool) []Session {
 					{Op: "done", R: "r2", X: 2}, {Op: "done", R: "r1", X: 1}, {Op: "expectdonelong"}}))
 		}
 	}
+	// Debug logs in the work-done message (the library's own server always sends none): every result
+	// passes through the client's handling of that text. Line ends of every kind: "\n", "\r\n", a
+	// progress line redrawn with a bare "\r", old Mac line ends, "\r\r\n", a text that ends in "\r",
+	// blank lines, a last line without line end, nothing but line ends.
+	{
+		logs := []string{
+			"one line\n",
+			"first\nsecond\n\n\nlast without line end",
+			"dos line\r\nanother\r\n",
+			"progress 10%\rprogress 50%\rprogress 100%\ndone\n",
+			"old mac\rline ends\r",
+			"ends in a carriage return\r",
+			"double\r\r\nreturn\n",
+			"\r",
+			"\n\r\n\r",
+			"  \t \r  \n",
+		}
+		// v3, one run per text, serial
+		var d []DOp
+		var sv []SOp
+		for i, l := range logs {
+			r := run(i + 1)
+			d = append(d, DOp{Op: "exec", R: r}, DOp{Op: "join", R: r})
+			sv = append(sv, SOp{Op: "expectws", R: r}, SOp{Op: "done", R: r, X: i + 1, Logs: l})
+		}
+		d = append(d, DOp{Op: "close"})
+		sv = append(sv, SOp{Op: "expectdone"})
+		out = append(out, hs("logs-serial", 3, d, sv))
+		// v3, single runs with the texts that matter most on their own
+		for i, l := range []string{logs[3], logs[5], logs[6]} {
+			out = append(out, hs(fmt.Sprintf("logs-single-%d", i+1), 3,
+				[]DOp{{Op: "exec", R: "r1"}, {Op: "join", R: "r1"}, {Op: "close"}},
+				[]SOp{{Op: "expectws", R: "r1"}, {Op: "done", R: "r1", X: 1, Logs: l}, {Op: "expectdone"}}))
+		}
+		// v3, overlapping: the run with the awkward logs is answered first; the others must still
+		// get their results and Close must return
+		out = append(out, hs("logs-overlap", 3,
+			[]DOp{{Op: "exec", R: "r1"}, {Op: "exec", R: "r2", From: true}, {Op: "exec", R: "r3"}, {Op: "joinall"}, {Op: "close"}},
+			[]SOp{{Op: "expectws", R: "r1"}, {Op: "expectws", R: "r2"}, {Op: "expectws", R: "r3"}, {Op: "done", R: "r2", X: 2, Logs: logs[3]},
+				{Op: "done", R: "r3", X: 3, Logs: logs[1]}, {Op: "done", R: "r1", X: 1, Logs: logs[4]}, {Op: "expectdone"}}))
+		// ATP v1
+		out = append(out, hs("logs-v1", 1,
+			[]DOp{{Op: "exec", R: "r1"}, {Op: "join", R: "r1"}, {Op: "exec", R: "r2"}, {Op: "join", R: "r2"}, {Op: "exec", R: "r3"}, {Op: "join", R: "r3"}, {Op: "close"}},
+			[]SOp{{Op: "expect", N: 2}, {Op: "done1", X: 1, Logs: logs[2]}, {Op: "expect", N: 3}, {Op: "done1", X: 2, Logs: logs[3]},
+				{Op: "expect", N: 4}, {Op: "done1", X: 3, Logs: logs[5]}}))
+	}
 	// ATP v1
 	out = append(out, hs("v1-serial-1", 1, []DOp{{Op: "exec", R: "r1"}, {Op: "join", R: "r1"}, {Op: "close"}},
 		[]SOp{{Op: "expect", N: 2}, {Op: "done1", X: 1}}))
